@@ -655,7 +655,6 @@ func c14history(c *Ctx, sv svcSpec, n int) {
 	}
 }
 
-
 // c14shared: Calc of the registered service instance (the one codec.Get hands to every caller) on a small buffer:
 // no write to any object that existed after package initialisation. A stateful Calc (running register kept in
 // the service) computes wrong values as soon as two goroutines use the service at once; replayed as parallel Calc
